@@ -1,6 +1,6 @@
 #!/bin/bash
 # Runs every claimed check's quick command on /repo as it is; prints a summary line per check.
-cd /verif
+cd "$(dirname "${BASH_SOURCE[0]}")/.."
 for id in $(python3 -c "import json;print(' '.join(c['property_id'] for c in json.load(open('MANIFEST.json'))['checks']))"); do
   s=$(date +%s)
   out=$(./check $id ${1:-quick} 2>&1); rc=$?
